@@ -184,6 +184,10 @@ def field_of(fn, defs, t):
     return names[0] if names else None
 
 
+INLINED = set()        # helpers whose reads were spliced into a caller's layout
+INLINE_BLOCK = set()   # functions that have their own reviewed layout (never spliced)
+
+
 def reads_of(prog, fn, depth=0):
     """ordered read events of fn: dicts {spec, field, cond}"""
     defs = Defs(fn)
@@ -251,6 +255,24 @@ def reads_of(prog, fn, depth=0):
             spec = "Bundle(%s)" % who.split("::")[-1]
         elif name.endswith("::parse") and ("Bundle" in name or "Bundle" in c.get("trait", "")):
             spec = "Bundle(%s)" % name.split(" as ")[0].lstrip("<").split("::")[-1]
+        elif depth < 3 and not name.startswith(("core::", "std::", "alloc::", "jxl_bitstream::", "jxl_coding::")):
+            # a private helper that is handed the bit reader (part of a parser moved into its own function): its reads are this
+            # parser's reads, bound to whatever the call's result is bound to
+            h = prog.fn(c.get("res") or name) or prog.fn(name)
+            if h is not None and h is not fn and h.crate == fn.crate and h.kind == "Fn" or (h is not None and h.kind == "AssocFn" and h is not fn and h.crate == fn.crate):
+                takes_reader = any("Bitstream" in fn.local_ty(op_local(a)) for a in t[2] if op_local(a) is not None)
+                if takes_reader and h.path not in INLINE_BLOCK:
+                    sub = reads_of(prog, h, depth + 1)
+                    if sub:
+                        INLINED.add(h.path)
+                        cond = controlling(fn, defs, doms, b, cache)
+                        head = field_of(fn, defs, t)
+                        for e in sub:
+                            sp = e["spec"]
+                            if b in in_loop and not sp.startswith("each:"):
+                                sp = "each:" + sp
+                            events.append({"spec": sp, "field": head or e["field"], "cond": cond + e["cond"]})
+            continue
         if spec is None:
             continue
         if b in in_loop and not spec.startswith("each:"):
